@@ -1163,6 +1163,10 @@ func (r *Runner) call(ctx context.Context, pos syntax.Pos, args []string) {
 		r.Params = args[1:]
 		oldInFunc := r.inFunc
 		r.inFunc = true
+		// Like bash, break and continue inside a function
+		// do not affect the loops of its caller.
+		oldInLoop := r.inLoop
+		r.inLoop = false
 
 		// Functions run in a nested scope.
 		// Note that [Runner.exec] below does something similar.
@@ -1175,6 +1179,7 @@ func (r *Runner) call(ctx context.Context, pos syntax.Pos, args []string) {
 
 		r.Params = oldParams
 		r.inFunc = oldInFunc
+		r.inLoop = oldInLoop
 		r.exit.returning = false
 		return
 	}
